@@ -19,6 +19,7 @@ pub enum Kind {
     Cw721,
     Hostile,
     Sloppy721,
+    Sloppy20,
 }
 
 impl Kind {
@@ -30,6 +31,7 @@ impl Kind {
             Kind::Cw721 => "cw721",
             Kind::Hostile => "hostile",
             Kind::Sloppy721 => "sloppy721",
+            Kind::Sloppy20 => "sloppy20",
         }
     }
     pub fn from_name(s: &str) -> Option<Kind> {
@@ -40,6 +42,7 @@ impl Kind {
             "cw721" => Kind::Cw721,
             "hostile" => Kind::Hostile,
             "sloppy721" => Kind::Sloppy721,
+            "sloppy20" => Kind::Sloppy20,
             _ => return None,
         })
     }
@@ -55,7 +58,7 @@ pub fn instantiate(kind: Kind, deps: DepsMut, env: Env, info: MessageInfo, msg: 
         Kind::Royalty => royalty::contract::instantiate(deps, env, info, parse(msg)?).map_err(|e| e.to_string()),
         Kind::Cw20 => cw20_base::contract::instantiate(deps, env, info, parse(msg)?).map_err(|e| e.to_string()),
         Kind::Cw721 => cw721_base::entry::instantiate(deps, env, info, parse(msg)?).map_err(|e| e.to_string()),
-        Kind::Hostile | Kind::Sloppy721 => Ok(Response::new()),
+        Kind::Hostile | Kind::Sloppy721 | Kind::Sloppy20 => Ok(Response::new()),
     }
 }
 
@@ -67,6 +70,7 @@ pub fn execute(kind: Kind, deps: DepsMut, env: Env, info: MessageInfo, msg: &[u8
         Kind::Cw721 => cw721_base::entry::execute(deps, env, info, parse(msg)?).map_err(|e| e.to_string()),
         Kind::Hostile => hostile_execute(deps, env, info, msg),
         Kind::Sloppy721 => sloppy_execute(deps, env, info, msg),
+        Kind::Sloppy20 => sloppy20_execute(deps, env, info, msg),
     }
 }
 
@@ -78,6 +82,7 @@ pub fn query(kind: Kind, deps: Deps, env: Env, msg: &[u8]) -> Result<Binary, Str
         Kind::Cw721 => cw721_base::entry::query(deps, env, parse(msg)?).map_err(|e| e.to_string()),
         Kind::Hostile => hostile_query(deps, env, msg),
         Kind::Sloppy721 => Err("sloppy721: no queries".into()),
+        Kind::Sloppy20 => hostile_query(deps, env, msg),
     }
 }
 
@@ -174,6 +179,27 @@ fn sloppy_execute(_deps: DepsMut, _env: Env, info: MessageInfo, msg: &[u8]) -> R
         }
         cw721::Cw721ExecuteMsg::TransferNft { .. } => Ok(Response::new()),
         _ => Err("sloppy721: unsupported".into()),
+    }
+}
+
+// ------------------------------------------------------------------------------------------
+// Sloppy CW20 stub: honest about the sender, but keeps no balances and does not refuse zero amounts
+// ------------------------------------------------------------------------------------------
+
+fn sloppy20_execute(_deps: DepsMut, _env: Env, info: MessageInfo, msg: &[u8]) -> Result<Response, String> {
+    let m: cw20::Cw20ExecuteMsg = parse(msg)?;
+    match m {
+        cw20::Cw20ExecuteMsg::Send { contract, amount, msg } => {
+            let hook = cw20::Cw20ReceiveMsg { sender: info.sender.to_string(), amount, msg };
+            let wrapped = serde_json::json!({ "receive": serde_json::to_value(&hook).map_err(|e| e.to_string())? });
+            Ok(Response::new().add_message(WasmMsg::Execute {
+                contract_addr: contract,
+                msg: Binary(serde_json::to_vec(&wrapped).unwrap()),
+                funds: vec![],
+            }))
+        }
+        cw20::Cw20ExecuteMsg::Transfer { .. } => Ok(Response::new()),
+        _ => Err("sloppy20: unsupported".into()),
     }
 }
 
